@@ -457,6 +457,7 @@ def execOp (ir : IR) (k : Nat) (pc : Nat) (op : Op) : P String := do
     K.emit s!"O {me} {k} panicking"
     K.panic "vp-panic"
   | "obs" => pure "ok"
+  | "spin" => pure "ok"      -- wall-clock time passes: no effect on the runtime
   -- atomics
   | "aload" | "astore" | "aswap" | "aadd" | "asub" | "aand" | "aor" | "axor" | "anand" | "amax" | "amin" | "acas" => do
     -- the operands are `u64` literals cast to the atomic's type; results print as that type does
